@@ -56,3 +56,19 @@ Lemma ex_errors :
   encode ex_def (tl ex_val) = Ok ex_bytes /\                                    (* the fixed field needs no value *)
   encode ex_def (tl (tl ex_val)) = EncodeErr 1.                                 (* missing value: KeyError wrapped *)
 Proof. vm_compute. repeat split; reflexivity. Qed.
+
+(* a spare-free definition (every consumed bit is looked at): LSB bit-field set filling 2 octets, signed LE integer, nested
+   envelope, sequence - for the literal re-encoding theorem *)
+Definition ex2_def : list field :=
+ [ FBits LRest PAlways true [BitF (Some 0%nat) 3 None; BitF (Some 1%nat) 5 (Some 17); BitF (Some 2%nat) 8 None];
+   FUint 3 (LFix 3) PAlways true true 7 (-2);
+   FEnv 4 (LTab 0 [(5, 2%nat); (6, 3%nat)]) PAlways true [FBuf 0 LRest PAlways];
+   FSeq 5 LRest PAlways [FUint 0 (LFix 1) PAlways false false 0 1; FBuf 1 (LTab 0 [(1,1%nat);(2,2%nat)]) PAlways] ].
+Definition ex2_bytes : list Z := [171; 141; 1; 2; 255; 9; 9; 2; 7; 7; 1; 6].
+Lemma ex2_static : wfb ex2_def = true /\ spare_free ex2_def = true /\ Forall (fun o => 0 <= o < 256) ex2_bytes.
+Proof. split; [reflexivity|]. split; [reflexivity|]. unfold ex2_bytes. repeat constructor; lia. Qed.
+Lemma ex2_decode : exists v, decode true ex2_def ex2_bytes = Ok (v, 12%nat) /\ encode ex2_def v = Ok ex2_bytes.
+Proof. eexists. vm_compute. split; reflexivity. Qed.
+Lemma ex2_all : wfb ex2_def = true /\ spare_free ex2_def = true /\ Forall (fun o => 0 <= o < 256) ex2_bytes /\
+  exists v, decode true ex2_def ex2_bytes = Ok (v, 12%nat) /\ encode ex2_def v = Ok ex2_bytes.
+Proof. destruct ex2_static as [H1 [H2 H3]]. repeat split; try assumption. exact ex2_decode. Qed.
